@@ -957,7 +957,9 @@ class World:
 
         def apply_np(target):
             if form == "setitem":
-                target[idx] = sargs[0]
+                # (the value is read before anything is written: with an advanced index NumPy itself
+                # is order-dependent when the value is a view of the target)
+                target[idx] = np.array(sargs[0], copy=True)
             elif form in ("iadd", "isub", "imul", "idiv", "ipow"):
                 f = {"iadd": np.add, "isub": np.subtract, "imul": np.multiply, "idiv": np.divide, "ipow": np.power}[form]
                 f(target, sargs[0], out=target)
